@@ -180,9 +180,10 @@ def build_items(ir, kinds, slots, targets):
         for s, pos in enumerate(slots[i]):
             t = ir.simple(RString([targets[i][s]]))
             refs.append((pos, wrap(ir, pos, t)))
-        if kind == "struct":
+        if kind in ("struct", "rstruct"):
             fields = [ir.field("f%d" % k, ty) for k, (pos, ty) in enumerate(refs)]
-            items.append(ir.item("Struct", ir.struct(name, fields)))
+            # rstruct: serde-renamed (emitted as R<name>); references inside types always carry the Rust name
+            items.append(ir.item("Struct", ir.struct(name, fields, renamed=("R" + name) if kind == "rstruct" else None, serde_rename=(kind == "rstruct") or None)))
         elif kind == "enum":
             vs = [ir.v_unit("U")]
             for k, (pos, ty) in enumerate(refs):
@@ -223,9 +224,21 @@ def case_topsort(case):
                 I.assume(z3.Or([t == a for a in allowed]))
         items = build_items(ir, kinds, slots, tv)
         # generate_types feeds topsort with aliases, structs, enums, consts - each sorted by name (reconcile_aliases)
-        rank = {"alias": 0, "struct": 1, "gstruct": 1, "enum": 2, "const": 3}
+        rank = {"alias": 0, "struct": 1, "rstruct": 1, "gstruct": 1, "enum": 2, "const": 3}
         order0 = sorted(range(n), key=lambda i: (rank[kinds[i]], names[i]))
         items = [items[i] for i in order0]
+        if "rstruct" in kinds:
+            # the real pipeline: reconcile_aliases first rewrites references to serde-renamed items (and sorts), then
+            # generate_types chains aliases, structs, enums, consts into topsort
+            from vlib.mirsym import bharness
+            L = I.prog.layout
+            vals = {"Alias": [], "Struct": [], "Enum": [], "Const": []}
+            for it in items:
+                vals[L.enums["RustItem"][it.variant]].append(it.fields[0])
+            pd = ir.parsed_data(structs=vals["Struct"], enums=vals["Enum"], aliases=vals["Alias"], consts=vals["Const"])
+            pd = bharness.reconcile_single(I, pd)
+            pdn = L.structs["ParsedData"]
+            items = [ir.item(k, x) for k, f in (("Alias", "aliases"), ("Struct", "structs"), ("Enum", "enums"), ("Const", "consts")) for x in pd.fields[pdn.index(f)].items]
         I.call_static("topsort::topsort", [SliceRef(items, 0, len(items))])
         return tv, items
 
@@ -271,8 +284,8 @@ def case_topsort(case):
                     for s, t in enumerate(tv[i]):
                         tgt = chr(conc(m, t))
                         if tgt in pos and tgt != names[i] and pos[tgt] > pos[names[i]]:
-                            off = (i, s, slots[i][s], kinds[i])
-                res["violations"].append({"kind": "not-topological", "result": order, "case": c,
+                            off = (i, s, slots[i][s], kinds[i], kinds[names.index(tgt)] == "rstruct")
+                res["violations"].append({"kind": "not-topological", "result": order, "case": c, "target_renamed": bool(off and off[4]),
                                           "offending_position": off[2] if off else "implicit-generic", "referrer_kind": off[3] if off else kinds[0]})
     except Unsupported as e:
         if "budget exhausted" in str(e) or "call depth exceeded" in str(e):
@@ -284,12 +297,13 @@ def case_topsort(case):
     return res
 
 
-VALID = {"struct": ["field", "vec", "option", "map_value", "map_key", "array", "slice", "generic_arg_local", "generic_arg_foreign", "nested_generic_arg", "vec_option"],
+VALID = {"rstruct": ["field", "vec", "option", "map_value", "array", "generic_arg_foreign"],
+         "struct": ["field", "vec", "option", "map_value", "map_key", "array", "slice", "generic_arg_local", "generic_arg_foreign", "nested_generic_arg", "vec_option"],
          "gstruct": ["field", "vec", "option", "array", "generic_arg_foreign", "map_param_key", "foreign_generic_with_param", "applied_to_param", "vec_applied_to_param"],
          "enum": ["newtype_variant", "struct_variant_field", "vec", "option", "map_value", "array", "slice", "generic_arg_local", "generic_arg_foreign", "nested_generic_arg"],
          "alias": ["alias_target", "vec", "option", "map_value", "array", "slice", "generic_arg_local", "generic_arg_foreign", "nested_generic_arg"],
          "const": ["const_type"]}
-DEFAULT = {"struct": "field", "gstruct": "field", "enum": "newtype_variant", "alias": "alias_target", "const": "const_type"}
+DEFAULT = {"struct": "field", "rstruct": "field", "gstruct": "field", "enum": "newtype_variant", "alias": "alias_target", "const": "const_type"}
 
 
 def topsort_cases(tier):
@@ -298,6 +312,7 @@ def topsort_cases(tier):
     kind_sets = [("struct", "struct", "struct"), ("struct", "enum", "alias"), ("enum", "alias", "struct"), ("alias", "struct", "const"),
                  ("const", "struct", "alias"), ("struct", "gstruct", "struct"), ("enum", "gstruct", "alias"), ("alias", "gstruct", "struct"),
                  ("gstruct", "struct", "struct"), ("gstruct", "enum", "enum"), ("gstruct", "enum", "struct"),
+                 ("struct", "rstruct", "struct"), ("alias", "rstruct", "enum"), ("rstruct", "rstruct", "struct"), ("enum", "struct", "rstruct"),
                  ("alias", "struct", "alias"), ("alias", "enum", "alias"), ("alias", "alias", "struct"), ("alias", "alias", "alias")]
     if tier == "thorough":
         kind_sets += [("struct", "struct", "struct", "struct"), ("enum", "enum", "struct"), ("alias", "alias", "alias"),
@@ -340,8 +355,8 @@ def render_source(case):
     for i, k in enumerate(kinds):
         nm = "G" if k == "gstruct" else NAMES[i]
         refs = [ty(p, targets[i][s]) for s, p in enumerate(slots[i])]
-        if k == "struct":
-            out.append("#[typeshare]\npub struct %s { %s }" % (nm, ", ".join("pub f%d: %s" % (j, r) for j, r in enumerate(refs))))
+        if k in ("struct", "rstruct"):
+            out.append("#[typeshare]\n%spub struct %s { %s }" % ('#[serde(rename = "R%s")]\n' % nm if k == "rstruct" else "", nm, ", ".join("pub f%d: %s" % (j, r) for j, r in enumerate(refs))))
         elif k == "gstruct":
             out.append("#[typeshare]\npub struct G<T> { pub v: T, %s }" % ", ".join("pub f%d: %s" % (j, r) for j, r in enumerate(refs)))
         elif k == "enum":
@@ -367,6 +382,8 @@ def native_order(rep, case):
         return None, src, r
     text = r["out"].get("", "")
     order = re.findall(r"^export (?:interface|type|const|enum) (\w+)", text, re.M)
+    # a serde-renamed struct `X` is emitted as `RX`: map it back to its Rust name
+    order = [(o[1] if len(o) == 2 and o[0] == "R" else o) for o in order]
     order = [o for o in order if len(o) == 1]
     return order, src, r
 
@@ -490,6 +507,8 @@ def run(rep, tier, only=None):
             rep.discharged += 1
             for v in r["violations"]:
                 sig = {"part": "topsort", "kind": v["kind"], "position": v.get("offending_position", "-"), "referrer": v.get("referrer_kind", "-")}
+                if v.get("target_renamed"):
+                    sig["target"] = "serde-renamed struct"
                 key = tuple(sorted(sig.items()))
                 if key in seen_sig:
                     continue
